@@ -94,4 +94,7 @@ def check(ctx) -> Result:
     norm = Normaliser(lambda e: repr(e.value) if isinstance(e, ast.Constant) else None)
     for nm in ("efficiency", "p_dark"):
         re_guards.range_validator(ctx, res, det.setters[nm], "value", 0, 1, norm=norm, label=f"Detector.{nm}")
+    from ..rules import rz_falsy
+    nz = rz_falsy.none_checks(ctx, res, "C07", rz_falsy.EMULATOR_EXTRA)
+    res.floor("Z functions scanned", nz, 3)
     return res
